@@ -317,14 +317,15 @@ class CodeGenerator(abc.ABC):
             arguments += ["missing_variables"]
 
         values_lst = []
-        index = 0
         values_idx = sympy.IndexedBase("values", shape=(len(self.ode.state_derivatives),))
+        # The slot of a state is the one reported by ``state_index``, whatever
+        # order the (possibly reduced) set of assignments is sorted in
+        state_index = {s.name: i for i, s in enumerate(self.ode.sorted_states())}
 
         for x in self.ode.sorted_assignments(remove_unused=self.remove_unused):
             values_lst.append(self._doprint(x.symbol, x.expr, use_variable_prefix=True))
             if isinstance(x, atoms.StateDerivative):
-                values_lst.append(self._doprint(values_idx[index], x.symbol))
-                index += 1
+                values_lst.append(self._doprint(values_idx[state_index[x.state.name]], x.symbol))
 
         values = "\n".join(values_lst)
         code = self.template.method(
